@@ -236,11 +236,15 @@ def r4(ctx, r):
     r.instance()
     r.expect(len(decl) == 1 and const_value(strip_casts(decl[0].get("init") or {})) == 0 and len(incs) == 1 and "++" in incs[0].node.get("op", ""), p, incs[0] if incs else None, "attempt counter", "`attempt` does not start at 0 with exactly one increment",
              okdesc="attempt = 0; one attempt++")
-    gb = [b for b in p.blocks.values() if b.cond is not None and common.cmp_parts(b.cond) and key_of(common.cmp_parts(b.cond)[1]) == "attempt" and key_of(common.cmp_parts(b.cond)[2]) == "retries"]
+    def budget_test(b):
+        """(op, attempt, retries) of `attempt OP retries`, whichever way round the source writes it"""
+        co = common.cmp_oriented(b.cond, lambda x: key_of(x) == "retries") if b.cond is not None else None
+        return co if co and key_of(co[1]) == "attempt" else None
+    gb = [b for b in p.blocks.values() if budget_test(b)]
     r.instance()
     ok = len(gb) == 1 and len(incs) == 1 and len(ex) == 1
     if ok:
-        op = common.cmp_parts(gb[0].cond)[0]
+        op = budget_test(gb[0])[0]
         ok = op in (">=", ">") and dominated_by_edge(p, incs[0], gb[0], 1, eh=True) and op == ">="
         # the only way back to executeRequest passes the increment
         ok = ok and search(p, ex[0], lambda x: x is ex[0], stop=lambda x: x is incs[0], eh=True) is None
@@ -339,7 +343,10 @@ def r5(ctx, r):
     # frameResponse: every surplus-bytes comparison sets forceEvict
     fr = fn(ctx, HC, "frameResponse", HCF)
     sets = [e for e in fr.stmts() if asg(e.node) and key_of(asg(e.node)[0]) == "forceEvict" and const_value(strip_casts(asg(e.node)[1])) == 1]
-    sur = [b for b in fr.blocks.values() if b.cond is not None and common.cmp_parts(b.cond) and common.cmp_parts(b.cond)[0] == ">" and "data.size()" in show(common.cmp_parts(b.cond)[1])]
+    def surplus_test(b):
+        co = common.cmp_oriented(b.cond, lambda x: "data.size()" not in show(x)) if b.cond is not None else None
+        return co is not None and co[0] == ">" and "data.size()" in show(co[1])
+    sur = [b for b in fr.blocks.values() if surplus_test(b)]
     r.instance()
     r.expect(len(sur) >= 3 and all(any(x in sets for x in fr.blocks[b.succs[0]].elems) for b in sur), fr, None, "surplus bytes not flagged", "frameResponse has %d surplus-bytes tests but not each sets forceEvict" % len(sur),
              okdesc="%d surplus-bytes edges set forceEvict" % len(sur))
